@@ -869,6 +869,14 @@ class Group(System):
             # connect the variables src and tgt
             graph.add_edge(src, tgt)
 
+        # The states of an implicit component feed its residuals, so every other output of the
+        # component may depend on them even if they are connected to nothing else.
+        for subsys in self.system_iter(recurse=True, typ=ImplicitComponent):
+            comp = subsys.pathname
+            for vname in subsys._var_allprocs_abs2meta['output']:
+                if vname in graph:
+                    graph.add_edge(vname, comp)
+
         return graph
 
     def _check_alias_overlaps(self, responses):
